@@ -3,7 +3,9 @@
   Only property theorems and their non-vacuity examples live here.
 -/
 import Bita.Proofs.CloneSound
+import Bita.Proofs.CloneNoJunk
 import Bita.Proofs.Schedule
+import Bita.Proofs.StepOrder
 
 namespace Bita.Props.C05
 open Bita Bita.Spec Bita.Proofs
@@ -19,9 +21,11 @@ def crashedFile (prior : Bytes) (writes : List (Nat × Bytes)) (k t : Nat) : Byt
 /-- **T1.**  Take *any* clone run (any options, seeds, prior output, even a misbehaving reader)
 and interrupt it at *any* point: after any number `k` of its writes, in the middle (`t` bytes)
 of the next.  Re-running the clone in place on what was left, with an honest reader over the
-archive, completes and yields exactly the source - or a collision is exhibited.  (The in-place
-theorem holds for every prior content, so in particular for every crashed content; it is
-stated here with the crash relation so that it is not vacuous.) -/
+archive, completes and yields exactly the source.  The only escape is a collision of the
+truncated strong hash with a genuine source chunk; colliding junk chunks in what the crash left
+are irrelevant (`Proofs.reorderOps_keep`).  (The in-place theorem holds for every prior content,
+so in particular for every crashed content; it is stated here with the crash relation so that
+it is not vacuous.) -/
 theorem rerun_completes (H : Bytes → Bytes) (hH : ∀ x, (H x).length = 64)
     (decomp : Nat → Bytes → Nat → Option Bytes) (features : List Nat)
     (archive : Bytes) (a : Archive) (src : Bytes) (cks : List Bytes)
@@ -36,15 +40,13 @@ theorem rerun_completes (H : Bytes → Bytes) (hH : ∀ x, (H x).length = 64)
     let left := crashedFile prior (writesOf run₁.log) k t
     let r := Clone.run H decomp features (honestReadAt archive) (honestReadChunks archive)
       { seedOutput := true } left seeds₂
-    (r.result = .ok ∧ r.output = src) ∨ Collision H a.hashLength cks ∨
-      SelfCollision H a.hashLength a.config left := by
+    (r.result = .ok ∧ r.output = src) ∨ Collision H a.hashLength cks := by
   intro run₁ left r
-  have := clone_complete H hH decomp features archive { seedOutput := true } left seeds₂ a src cks hinit hd hs
+  have := clone_complete_nojunk H hH decomp features archive { seedOutput := true } left seeds₂ a src cks hinit hd hs
     (by intro pin hp; cases hp) (by intro h; cases h) (by intro h; cases h)
-  rcases this with ⟨hok, _, hout⟩ | hc | ⟨_, hsc⟩
+  rcases this with ⟨hok, _, hout⟩ | hc
   · exact Or.inl ⟨hok, hout rfl⟩
-  · exact Or.inr (Or.inl hc)
-  · exact Or.inr (Or.inr hsc)
+  · exact Or.inr hc
 
 /-- Repeated interruptions: whatever content a chain of interrupted runs leaves, the final
 complete in-place run yields the source.  (Each link is `rerun_completes`; the chain is
@@ -56,15 +58,13 @@ theorem rerun_completes_any_content (H : Bytes → Bytes) (hH : ∀ x, (H x).len
     (hs : Stored H decomp a archive) (left : Bytes) (seeds : List Bytes) :
     let r := Clone.run H decomp features (honestReadAt archive) (honestReadChunks archive)
       { seedOutput := true } left seeds
-    (r.result = .ok ∧ r.output = src) ∨ Collision H a.hashLength cks ∨
-      SelfCollision H a.hashLength a.config left := by
+    (r.result = .ok ∧ r.output = src) ∨ Collision H a.hashLength cks := by
   intro r
-  have := clone_complete H hH decomp features archive { seedOutput := true } left seeds a src cks hinit hd hs
+  have := clone_complete_nojunk H hH decomp features archive { seedOutput := true } left seeds a src cks hinit hd hs
     (by intro pin hp; cases hp) (by intro h; cases h) (by intro h; cases h)
-  rcases this with ⟨hok, _, hout⟩ | hc | ⟨_, hsc⟩
+  rcases this with ⟨hok, _, hout⟩ | hc
   · exact Or.inl ⟨hok, hout rfl⟩
-  · exact Or.inr (Or.inl hc)
-  · exact Or.inr (Or.inr hsc)
+  · exact Or.inr hc
 
 /-- **T2.**  A run whose write failed never reports success: whichever of the output writes
 fails (the tokio file reports a failed background write only at the next write or flush), the
@@ -100,5 +100,13 @@ example :
     (Clone.run toyH (fun _ b _ => some b) [] (honestReadAt archive) (honestReadChunks archive)
       { seedOutput := true } left []).output = src := by
   decide +kernel
+
+/-- The step order of `clone_archive` that `Clone.run` transcribes (scan the output and reorder in
+place *before* any seed is used, fetch last, flush before resize), read from the source on every
+run: a reordering of the steps in the code breaks this theorem. -/
+theorem clone_steps_as_modelled :
+    Gen.cloneStepOrder = ["try_init", "banner", "pin", "open_output", "device_check", "scan_output", "reorder",
+                          "seed_stdin", "seed_files", "fetch", "flush", "resize", "verify_output"] :=
+  Proofs.clone_step_order_fact
 
 end Bita.Props.C05
